@@ -57,8 +57,11 @@ def product_history(rng):
     for sz in _split(rng, lacc, k) + rest:
         pieces.append(body[pos:pos + sz])
         pos += sz
+    # the channel field of the group's lines: one value, none, or another on every line (it plays no part in sequencing)
+    chmode = rng.choice(["A", "A", "", "vary", "B"])
+    chan = lambda: rng.choice([b"A", b"B", b"", b"1"]) if chmode == "vary" else chmode.encode()
     frag = lambda i, **kw: S(pieces[i], nf=kw.pop("nf", n), fn=i + 1, mid=kw.pop("mid", mid),
-                             fill=kw.pop("fill", fin_fill if i == n - 1 else 0), **kw)
+                             fill=kw.pop("fill", fin_fill if i == n - 1 else 0), channel=kw.pop("channel", chan()), **kw)
     if not fresh:
         for i in range(k):
             ops.append(L(frag(i), 0, d0 if rng.random() < 0.8 else 1 - d0))
@@ -67,7 +70,7 @@ def product_history(rng):
     nxt = k           # index of the group's next fragment
     dE = rng.randrange(2)
     ev = rng.choice(["none", "cks-cont", "count-changed", "foreign-id", "oversize", "oversize", "garbage", "unfrag-ok", "unfrag-bad",
-                     "cont-badchar", "cont-fill", "dup", "new-first", "far-number", "cks-any", "zero-numbered"])
+                     "cont-badchar", "cont-fill", "dup", "new-first", "far-number", "cks-any", "zero-numbered", "cont-malformed"])
     replaced = False
     if ev == "cks-cont" and nxt < n:
         good = frag(nxt)
@@ -77,7 +80,7 @@ def product_history(rng):
         nf2 = rng.choice([max(0, nxt - 1), nxt, nxt + 1, nxt + 2, n + 1, 255, 0, 1])
         ops.append(L(S(gen.random_alphabet(rng, rng.choice(sizes)), nf=nf2, fn=nxt + 1, mid=mid, fill=0), 0, dE))
     elif ev == "foreign-id":
-        ops.append(L(S(gen.random_alphabet(rng, rng.choice(sizes)), nf=n, fn=nxt + 1, mid=other, fill=0), 0, dE))
+        ops.append(L(S(gen.random_alphabet(rng, rng.choice(sizes)), nf=n, fn=nxt + 1, mid=other, fill=0, channel=chan()), 0, dE))
     elif ev == "oversize":
         big = gen.random_alphabet(rng, rng.choice([385, 386, 400, 500, 1000]))
         shape = rng.choice(["unfrag", "unfrag-id", "first-other", "first-same", "out-of-seq", "in-seq", "cks"])
@@ -111,6 +114,12 @@ def product_history(rng):
         pieces[nxt] = bytes(pb)
         ops.append(L(frag(nxt), 0, dE))
         replaced = True
+    elif ev == "cont-malformed" and nxt < n:
+        # the group's own next fragment, in sequence, but not a sentence: a fill count of 6 ... 255, a count or number
+        # above 255, a missing field - rejected for its form before sequencing, whatever position it has in the group
+        kw_ = rng.choice([dict(fill_txt=rng.choice([b"6", b"7", b"9", b"10", b"64", b"255"])), dict(nf_txt=str(n + 256).encode()),
+                          dict(fn_txt=str(nxt + 1 + 256).encode()), dict(fill_txt=b""), dict(mid_txt=b"x")])
+        ops.append(L(frag(nxt, **kw_), 0, dE))
     elif ev == "cont-fill" and nxt < n - 1:
         ops.append(L(frag(nxt, fill=rng.randrange(1, 6)), 0, dE))
         replaced = True
@@ -246,6 +255,9 @@ def run_lines(prop, pid, rep, tier, seed):
                 for j in range(1, n):
                     a, m = impl[i + j], model[i + j]
                     rep.evaluations += 1
+                    if not reconcile and a.endswith(" st=?"):
+                        # (a parser whose state is not readable from outside, in a stream that is not probed: outcomes only)
+                        a, m = a.rsplit(" st=", 1)[0], m.rsplit(" st=", 1)[0]
                     pa, pm = proj(a), proj(m)
                     if pa != pm:
                         rep.count("state-event:differs")
